@@ -18,7 +18,8 @@ Functions modelled (line numbers of src/pyramid/static.py unless said otherwise)
 * `routeRemainder`, `serveSub`      the route `<name>/*subpath` that `add_static_view` registers
                                     (config/views.py 2249-2261; urldispatch.py `_compile_route`, `RoutesMapper.__call__`)
 * `traversalReaches`, `servePlain`  `static_view(..., use_subpath=False)` registered as the default view of a
-                                    traversal application whose resources accept every name
+                                    traversal application whose resources accept every name (the view reads
+                                    `traversal_path_info(request.environ.get('PATH_INFO', '/'))`: one decoding)
 * `serveDirect`                     `static_view(..., use_subpath=True)` called with a given `request.subpath`
 
 The file system is abstract (`Fs`: which path strings are directories, which exist, sizes): symlinks, mounts and
@@ -94,6 +95,9 @@ structure Fs where
   isThere : Text → Bool
   size : Text → Nat
 
+/-- `os.path.isfile(p)` / `resource_exists(p) and not resource_isdir(p)` -/
+def Fs.isRegular (fs : Fs) (p : Text) : Bool := fs.isThere p && !fs.isDir p
+
 abbrev Enc := String
 
 /-- the configuration of one `static_view` -/
@@ -129,9 +133,10 @@ def resourceName (fs : Fs) (v : View) (slash : Bool) (segs : List Seg) : NameOut
         if !slash then .redirect else .name (pjoin rp v.index)
       else .name rp
 
-/-- `find_resource_path(name)`: the path handed to `FileResponse`, `none` when the resource does not exist -/
+/-- `find_resource_path(name)`: the path handed to `FileResponse`, `none` when the resource does not exist or is
+not a regular file (`isfile(name)`; `resource_exists(pkg, name) and not resource_isdir(pkg, name)`) -/
 def findResourcePath (fs : Fs) (v : View) (name : Text) : Option Text :=
-  if fs.isThere (osPath v name) then some (osPath v name) else none
+  if fs.isRegular (osPath v name) then some (osPath v name) else none
 
 structure Cand where
   path : Text
@@ -174,7 +179,6 @@ def findBestMatch (ae : Option (List Enc)) (files : List Cand) : Option Cand :=
 
 inductive Outcome where
   | urlDecodeError                                        -- URLDecodeError raised (router / traverser / the view)
-  | unicodeEncodeError                                    -- UnicodeEncodeError raised by `decode_path_info`
   | notFound                                              -- 404
   | redirect                                              -- 301 to `path_url + '/'`
   | isADirectory (path : Text)                            -- `open(path, 'rb')` raises IsADirectoryError
@@ -221,24 +225,14 @@ def traversalReaches : List Seg → Bool
   | [] => true
   | s :: rest => if s.take 2 = ['@', '@'] then s.drop 2 = [] else traversalReaches rest
 
-/-- `str.encode('latin-1')`; `none` = UnicodeEncodeError -/
-def latin1Encode (t : Text) : Option Bytes :=
-  if t.all (fun c => c.toNat < 256) then some (t.map fun c => UInt8.ofNat c.toNat) else none
-
 /-- `config.add_view(static_view(root, use_subpath=False))` in such an application.  The view computes
-`traversal_path_info(request.path_info)` (line 147): `request.path_info` is WebOb's *already decoded* text, and
-`traversal_path_info` decodes a second time (latin-1 encode, UTF-8 decode). -/
+`traversal_path_info(request.environ.get('PATH_INFO', '/'))` (lines 150-152): the raw WSGI string, decoded once. -/
 def servePlain (fs : Fs) (v : View) (ae : Option (List Enc)) (wsgi : Bytes) : Outcome :=
   match decodePathInfo wsgi with
   | none => .urlDecodeError
   | some t =>
     if traversalReaches (splitPathInfo (if t = [] then ['/'] else t)) then
-      match latin1Encode t with
-      | none => .unicodeEncodeError
-      | some b =>
-        match decodePathInfo b with
-        | none => .urlDecodeError
-        | some t2 => staticView fs v ae (endsWithSlash t) (splitPathInfo t2)
+      staticView fs v ae (endsWithSlash t) (splitPathInfo t)
     else .notFound
 
 /-- `static_view(root, use_subpath=True)(context, request)` with `request.subpath = segs` -/
